@@ -180,6 +180,8 @@ type Response struct {
 	Schema  *Schema
 	Headers []Header
 	Ref     string // components.responses name
+	// AlsoContent: further media types declared next to Content (each with a binary string schema)
+	AlsoContent []string
 }
 
 type Body struct {
@@ -262,7 +264,11 @@ func respDoc(r Response) map[string]interface{} {
 		if r.Schema != nil {
 			mt["schema"] = r.Schema.Doc()
 		}
-		m["content"] = map[string]interface{}{r.Content: mt}
+		cm := map[string]interface{}{r.Content: mt}
+		for _, a := range r.AlsoContent {
+			cm[a] = map[string]interface{}{"schema": map[string]interface{}{"type": "string", "format": "binary"}}
+		}
+		m["content"] = cm
 	}
 	if len(r.Headers) > 0 {
 		hs := map[string]interface{}{}
